@@ -19,11 +19,26 @@ CLAIMS = {
                      'parsed from the real emitted event equal the request, token pair = independent derivation and immutable; all transitions replayed on the real keeper.', note=COMMON_NOTE),
     'C11': dict(text='Contiguous / L2Increasing / TimeMonotone invariants and ProposeRule / DeleteRule action properties hold on the bounded oracle model; every propose/delete with '
                      'indices 0..3 and block numbers 1..3 in every reachable log state is replayed on the real keeper and the stored outputs (root, L2 block, L1 height, L1 time) compared.', note=COMMON_NOTE),
+    'C18': dict(text='Replicas.tla states determinism as agreement of K replicas applying one log (checked by TLC, and shown to fail for a deliberately non-deterministic Apply in the selftest). '
+                     'Histories are behaviours of the other specifications: random paths through the transition graphs TLC emits for the validator-set, plan, oracle, L2 deposit and L1 families '
+                     '(multi-removal blocks, plans over several validators, oracle aggregation, genesis round trips); each path runs on 4 (quick) / 8 (thorough) fresh instances, every log position '
+                     'records a hash of the raw key/value dump of every module store and a hash of result, error text, response bytes, ordered events and ordered validator updates per replica, and '
+                     'TLC checks Agreement on the recorded trace.', technique='TLA+ replication spec checked by TLC; recorded multi-replica traces of spec behaviours validated by TLC',
+                note='Non-determinism is only seen if it manifests in the K runs (Go randomises map iteration per range loop, so a 3-element map order differs between two runs with probability 5/6). Fresh instances share one process.'),
     'C19': dict(text='Bounded model over metadata classes (valid list, repeated channel, unknown field, differently-cased key, non-JSON, wrong type) x channel states (missing, fresh, in use, '
                      'taken) x challengers: GrantOnlyIf, ChallengerHandsOver and the admin frame condition hold; every transition runs through MsgCreateBridge/MsgUpdateMetadata/'
                      'MsgUpdateChallenger with the real hook.BridgeHook wired to an in-store channel/perm keeper.', note=COMMON_NOTE + ' The IBC channel and perm keepers are harness implementations of the hook interfaces (the real ones are not in this repository).'),
 }
 CLAIMS.update({
+    'C04': dict(text='Bridge.tla composes both chains with a faithful executor, a proposer that builds the tree with the published rule (Formats), a challenger and claimants; Completeness '
+                     '(every recorded withdrawal with a valid recipient that a final output covers is accepted when claimed, user withdrawals and refunds of failed deposits alike) and '
+                     'NoStuckTransfer (neither chain records a transfer above the 64-bit cap: amounts of exactly 2^64 are offered to both entry points) are TLC invariants, and every transition '
+                     'runs on the two real chains. The trees family proposes a tree of every size 1..8 (16 thorough) and claims every leaf position through the real handler with proofs built '
+                     'by the independent implementation of the tree rule.', note=COMMON_NOTE + ' Amounts are abstract units at scale 2^62 (3 units fit 64 bits, 4 units = 2^64).'),
+    'C08': dict(text='Solvency (escrow = L2 supply + deposits not yet finalized on L2 + withdrawals not yet paid on L1, per denom), Holdings (users\' combined holdings + value in flight constant) '
+                     'and DrainedOK are TLC invariants of the composed model over deposits (credited and refunded), L2 transfers, withdrawals, relays incl. duplicates and unauthorised relayers, '
+                     'proposals, a challenge with re-proposal, time advances and claims in any order; every transition is executed on the two real chains in one process, the deposit / withdrawal '
+                     'logs being rebuilt from the events the real chains emit, and the full projected state of both chains compared.', note=COMMON_NOTE + ' The liveness half (eventually drained under a fair schedule) is not checked; DrainedOK is a safety statement about drained states.'),
     'C06': dict(text='Relay model: three/four pending deposits, two executors and a stranger, every sequence (incl. 0, replays, gaps, ahead) offered in every state, interleaved with a '
                      'withdrawal and an executor rotation: InOrderOnce, NoopIsNoop, AheadRejected hold on every transition (TLC) and every transition is replayed on the real keeper; '
                      'NextL1Sequence is read through the gRPC query.', note=COMMON_NOTE),
